@@ -6,7 +6,7 @@ from .values import _byte_type
 from .sym import (TRUE, FALSE, RS, IS, zand, zor, znot, zimp, State, Frame, HeapLV)
 from .expr import ERR_TAG
 
-SPEC_FUNCS = ("zzOld", "zzImp", "zzForall", "zzExists", "zzResult", "zzIter", "zzFresh", "zzAlloc", "zzSameSlice", "zzNilErr", "zzLen")
+SPEC_FUNCS = ("zzDisjoint", "zzDisjointStr", "zzOld", "zzImp", "zzForall", "zzExists", "zzResult", "zzIter", "zzFresh", "zzAlloc", "zzSameSlice", "zzNilErr", "zzLen")
 
 
 class CallMixin:
@@ -179,17 +179,25 @@ class CallMixin:
         raise Unsupported("builtin " + str(b))
 
     def make_unsafe_ptr(self, sl):
-        """Pointer to the first element of a slice/string: remembers (region, offset)."""
-        p = PtrV(self.fresh("uptr", RS), sl.elem)
-        self.unsafe_ptrs.append((p.oid, sl))
+        """Pointer to the first element of a slice/string.  A *T produced by unsafe.SliceData is an abstract id p with
+        total functions uregion(p), uoffset(p); unsafe.Slice / unsafe.String rebuild the window from them, so the pair
+        is an identity on (region, offset) — also for pointers read back from the heap of a symbolic receiver."""
+        ureg = z3.Function("uregion", RS, RS)
+        uoff = z3.Function("uoffset", RS, IS)
+        newp = self.fresh_rid()
+        p = PtrV(z3.If(sl.rid == rid(0), rid(0), newp), sl.elem)
+        self.facts.append(z3.And(ureg(newp) == sl.rid, uoff(newp) == sl.off))
         self.assumptions.add("unsafe.SliceData/StringData + unsafe.String/Slice are treated as identities on (region, offset)")
         return p
 
     def unsafe_ptr_slice(self, p):
-        for oid, sl in reversed(self.unsafe_ptrs):
-            if oid is p.oid or (z3.is_expr(p.oid) and oid.eq(p.oid)):
-                return sl
-        raise Unsupported("unsafe pointer of unknown origin")
+        ureg = z3.Function("uregion", RS, RS)
+        uoff = z3.Function("uoffset", RS, IS)
+        oid = p.oid if isinstance(p, PtrV) else p.term
+        # a pointer that existed before the call points into a region that existed before the call
+        self.facts.append(z3.Implies(z3.ULT(oid, rid(FRESH_BASE)), z3.ULT(ureg(oid), rid(FRESH_BASE))))
+        self.assumptions.add("unsafe.SliceData/StringData + unsafe.String/Slice are treated as identities on (region, offset)")
+        return SliceV(ureg(oid), uoff(oid), None, None, None)
 
     def do_append(self, e, st):
         args = e["Args"]
@@ -302,6 +310,10 @@ class CallMixin:
             a = self.ev(args[0], st)
             b = self.ev(args[1], st)
             return z3.And(a.rid == b.rid, a.off == b.off, a.ln == b.ln)
+        if name in ("zzDisjoint", "zzDisjointStr"):
+            a = self.ev(args[0], st)
+            b = self.ev(args[1], st)
+            return z3.Or(a.rid != b.rid, a.rid == rid(0))
         if name == "zzAlloc":
             return st.ghost.get("alloc", z3.BitVecVal(0, 64))
         raise Unsupported("spec builtin " + name)
